@@ -128,7 +128,7 @@ def run(ctx: Ctx) -> None:
     from .c08 import local_timers, timer_exit_states
 
     tms = [(fn, arm, h) for fn, arm, h in local_timers(ctx) if fn is cx]
-    ctx.count("C11.R2.timer", len(tms), 1, "timeout timers armed by the request function")
+    ctx.count("C11.R2.timer", len(tms), 0, "timeout timers armed by the request function (0 = bounded by another construct, judged by C09.R1)")
     for fn, arm, h in tms:
         states, gt = timer_exit_states(ctx, fn, arm, h)
         bad = [(ex, s) for ex, s in states if "armed" in s and "cancelled" not in s and "fired" not in s]
@@ -216,7 +216,10 @@ def run(ctx: Ctx) -> None:
     ctx.ob("C11.R3", hc, "the appended value is the received message", p_msg in hc.param_names(), f"appends {p_msg}")
     # binding in the request function
     parts = [n for n in own_nodes(cx.node) if isinstance(n, ast.Call) and norm(n.func).endswith("partial") and n.args and (cv := res._callable_value(cx, n.args[0])) is not None and hc in cv.funcs]
-    ctx.require(len(parts) == 1, "partial(handle_complex_message, ...) not found in the request function")
+    ctx.require(len(parts) >= 1, "partial(handle_complex_message, ...) not found in the request function")
+    if len(parts) != 1:
+        ctx.ob("C11.R3", cx, "the registered callback has exactly one binding: the collector with future, list, accept and stop bound", False, f"{len(parts)} different collectors are built: {[norm(p_)[:60] for p_ in parts]}")
+        return
     bound = dict(zip(hc.param_names(), [norm(a) for a in parts[0].args[1:]]))
     awaited = [norm(a.value) for a in own_nodes(cx.node) if isinstance(a, ast.Await) and isinstance(a.value, ast.Name)]
     rets = [norm(n.value) for n in own_nodes(cx.node) if isinstance(n, ast.Return) and n.value is not None]
@@ -226,6 +229,10 @@ def run(ctx: Ctx) -> None:
         ctx.ob("C11.R3", cx, "accept predicate bound to the accept slot", bound.get(acc) == "do_append", f"slot {acc} <- {bound.get(acc)}")
         ctx.ob("C11.R3", cx, "stop predicate bound to the stop slot", bound.get(stp) == "do_stop", f"slot {stp} <- {bound.get(stp)}")
     ctx.ob("C11.R3", cx, "the registered callback is that partial", reg_args[0] in [norm(t) for n in own_nodes(cx.node) if isinstance(n, ast.Assign) and n.value is parts[0] for t in n.targets], f"registers {reg_args[0]}")
+    # ... on every path: the registered name has no other binding (a second, cheaper handler chosen for some argument
+    # combination would bypass the accept / stop predicates)
+    binds = [n for n in own_nodes(cx.node) if isinstance(n, (ast.Assign, ast.AnnAssign)) and getattr(n, "value", None) is not None and any(norm(t) == reg_args[0] for t in (n.targets if isinstance(n, ast.Assign) else [n.target]))]
+    ctx.ob("C11.R3", cx, "the registered callback has exactly one binding: the collector with future, list, accept and stop bound", len(binds) == 1 and binds[0].value is parts[0] and len(parts[0].args) == 5, f"{[norm(b.value)[:60] for b in binds]}")
     ctx.ob("C11.R3", cx, "registered for the caller's response types", reg_args[1:] == ["msg_types"], f"{reg_args[1:]}")
     sends = [c for n in g.reachable() for c in calls_to(cx, send_keys, n)]
     ctx.ob("C11.R3", cx, "sends the caller's messages exactly once", len(sends) == 1 and [norm(a) for a in sends[0].args] == ["messages"], f"{[norm(c) for c in sends]}")
